@@ -290,7 +290,7 @@ row(props=["C10"], func="pkg/application/bs.(BadSmellApp).IdentifyBadSmell", par
 EXP0 = "GetText(Expression(ctx, 0))"
 row(props=["C06"], func="pkg/application/refactor/base.(JavaRefactorListener).EnterExpression", params=["s", "ctx"], kind="callguard", any_site=True,
     callee="pkg/application/refactor/base/models.(JFullIdentifier).AddField",
-    expr='Expression(ctx, 0) != nil && !contains(%s, ".") && call("unicode.IsUpper", %s[0])' % (EXP0, EXP0),
+    expr='Expression(ctx, 0) != nil && !contains(%s, ".") && call("unicode.IsUpper", call("runes", %s)[0])' % (EXP0, EXP0),
     what="the left operand of every expression is recorded as a referenced name when it is a capitalised simple name (operators, method references, array access alike)")
 row(props=["C15"], func="pkg/application/git.BuildChangeMap", params=["commits"], kind="emits", target="mapstore:inner", tag={}, total=1, each={"as": "commit,change"}, when="*",
     fields={"key": rename_terms("change.File")[0]}, what="a change is counted under the file's current (new) name, for both rename notations")
